@@ -108,3 +108,47 @@ def wrapper_fn(prog, wrapper, method):
             "MetaStoreUploader": "<anda_object_store::MetaStoreUploader<T> as object_store::upload::MultipartUpload>::",
             "EncryptedStoreUploader": "<anda_object_store::encryption::EncryptedStoreUploader<T> as object_store::upload::MultipartUpload>::"}
     return prog.fn(pats[wrapper] + method)
+
+
+# origin callee (regex) -> reason why its Err may legitimately end in a non-error outcome
+TOLERATED_ERR_TO_OK = {
+    r"::decode_meta$": "a commit point that does not decode is external corruption, not a backend failure: put rebuilds it, "
+                       "listing skips it under the lenient policy, the collector treats it as referencing everything (R08.4)",
+}
+
+
+def error_swallow_rules(rep, rule, prog):
+    """No backend failure is turned into an answer: on the Err edge of every `Result<_, object_store::Error>` test, an
+    `Ok(..)` return is reachable only through an edge that names a specific error variant (NotFound, AlreadyExists, ...).
+    A catch-all arm that returns Ok would report a transient backend error as "absent" - to a reader (C07) and, worse,
+    to the collector's mark phase and re-check, which would then delete a referenced payload (C08)."""
+    n = 0
+    for f in prog.fns.values():
+        if not in_scope(f):
+            continue
+        ve = f.variant_edges()
+        okb = set()
+        for b in f.live_blocks():
+            for st in f.stmts(b):
+                if st[0] == "A" and st[1]["l"] == 0 and not st[1].get("p") and st[2]["k"] == "agg" \
+                        and st[2]["a"].get("def") == "core::result::Result" and st[2]["a"].get("v") == "Ok":
+                    okb.add(b)
+        if not okb:
+            continue
+        # arms that name a variant (the catch-all target is shared by every variant not named)
+        specific = {t for (b, place, adt, m, els) in ve if adt == "object_store::Error" for t in m.values() if t != els}
+        for (b, place, adt, m, els) in ve:
+            if adt != "core::result::Result" or "Err" not in m or "object_store::Error" not in f.locals[place.l]:
+                continue
+            origins = [o[1] for o in f.slice_back_local(place.l, proj=place) if o[0] == "call"]
+            names = sorted({(o.name or "") for o in origins})
+            tol = [rx for rx in TOLERATED_ERR_TO_OK if any(re.search(rx, nm) for nm in names)]
+            hit = f.reachable_from([m["Err"]], avoid=specific) & okb
+            n += 1
+            o = prog.outer_fn(f)
+            short = o.path.rsplit("::", 1)[1]
+            key = "err-not-swallowed|%s|%s" % (short, "+".join(re.sub(r"(::\{closure#\d+\})+$", "", nm).rsplit("::", 1)[-1] for nm in names) or "?")
+            rep.ob(rule, key, not hit or bool(tol),
+                   "the Err edge of this test reaches an Ok(..) return without passing an arm for a specific object_store::Error variant "
+                   "(a backend failure would be reported as a normal answer)", "%s:%s" % (f.file, f.term(b).get("ln", f.line)))
+    return n
